@@ -486,13 +486,18 @@ def retryable : Err → Bool
   | .fault .reset => true
   | _ => false
 
+/-- the environment an attempt runs in: the caller's validator if `fetch_url` hands `url_validator` to that attempt's
+`_fetch_with_probe`, no validator otherwise (extracted per attempt: `firstAttemptValidated`, `retryValidated`) -/
+def withValidator (env : Env) (forwarded : Bool) : Env :=
+  if forwarded then env else { env with valid := fun _ => true }
+
 /-- `fetch_url`: the fetch, retried once after a stale-connection error (schedules of the two attempts may differ) -/
 def fetchUrl {σ : Type} (env : Env) (o : Origin σ) (cfg : Cfg) (sched1 sched2 : List Nat) (s : σ) (url : Url) : Out σ Bytes :=
-  let a := fetchWithProbe env o cfg sched1 s url
+  let a := fetchWithProbe (withValidator env Gen.Fetch.firstAttemptValidated) o cfg sched1 s url
   match a.val with
   | .error e =>
     if retryable e && Gen.Fetch.retryRecognised then
-      let b := fetchWithProbe env o cfg sched2 a.st url
+      let b := fetchWithProbe (withValidator env Gen.Fetch.retryValidated) o cfg sched2 a.st url
       ⟨b.val, a.tr.app b.tr, b.st⟩
     else a
   | .ok _ => a
